@@ -41,6 +41,10 @@ func oddResolver(n int) fox.ClientIPResolver {
 // trace records which middleware and handler ran for the request being served.
 var trace []string
 
+// (not inlined: every value it returns is a closure of the same function literal, as with any middleware or
+// handler constructor used more than once; their code pointers are equal, only their captured values differ)
+//
+//go:noinline
 func recMw(id string) fox.MiddlewareFunc {
 	return func(n fox.HandlerFunc) fox.HandlerFunc {
 		return func(c fox.Context) {
